@@ -1,0 +1,46 @@
+//go:build verif
+
+package entropy
+
+import "sync/atomic"
+
+// Verification hook, compiled in only with the "verif" build tag: lets an
+// external monitor see every histogram handed to NormalizeFrequencies and the
+// table it left behind.
+const verifOn = true
+
+// VerifNormalizeHook receives a copy of the histogram as it was on entry
+// (before), the slices as they are on return (after, alphabet) and the parameters.
+type VerifNormalizeHook func(before []int, after []int, alphabet []int, totalFreq, scale int)
+
+var verifNormalizeHook atomic.Pointer[VerifNormalizeHook]
+
+// SetVerifNormalizeHook installs (or removes with nil) the hook.
+func SetVerifNormalizeHook(h VerifNormalizeHook) {
+	if h == nil {
+		verifNormalizeHook.Store(nil)
+		return
+	}
+
+	verifNormalizeHook.Store(&h)
+}
+
+func verifNormalize(freqs []int, alphabet []int, totalFreq, scale int) func() {
+	h := verifNormalizeHook.Load()
+
+	if h == nil {
+		return func() {}
+	}
+
+	before := make([]int, len(freqs))
+	copy(before, freqs)
+
+	return func() {
+		if r := recover(); r != nil {
+			// Do not report a half-updated table; let the fault propagate unchanged
+			panic(r)
+		}
+
+		(*h)(before, freqs, alphabet, totalFreq, scale)
+	}
+}
